@@ -420,6 +420,7 @@ theorem as_beginData (s : S) (id : Nat) (dec : DataDec) : AS s (beginData s id d
 
 theorem as_setW (s : S) (w : W) : AS s (setW s w) := by as_triv
 theorem as_setLimit (s : S) (n : Nat) : AS s (setLimit s n) := by as_triv
+theorem as_armLimit (s : S) : AS s (armLimit s) := by as_triv
 
 /-- storing the octets of a DATA call (no chunked transfer is running) -/
 theorem acct_setOctets (s : S) (k : Nat) (f : DRec → DRec) (h : Acct s) (hb : s.c.bdat = none)
@@ -691,10 +692,8 @@ theorem acct_bdatFail (s : S) (k left : Nat) (last : Bool) (err : BRes) (h : Pre
     · exact h2.trans (as_closeConn _)
     · exact h2
   generalize (if err == errPanic then closeConn s2 else s2) = s3 at h3 ⊢
-  have h4 : AS s (setLimit (resetConn s3) s3.cfg.maxLine) := h3.trans ((as_resetConn _).trans (as_setLimit _ _))
-  refine (h.of_as ?_).acct ?_
-  · have : (resetConn s3).cfg = s3.cfg := (resetConn_c s3).2.2.2.2
-    rw [this]; exact h4
+  have h4 : AS s (armLimit (resetConn s3)) := h3.trans ((as_resetConn _).trans (as_armLimit _))
+  refine (h.of_as h4).acct ?_
   · show (resetConn s3).c.bdat = none
     rw [(resetConn_c s3).1]
 
@@ -710,8 +709,8 @@ theorem acct_bdatDone (s : S) (k size : Nat) (last : Bool) (h : Pre s) (hbd : s.
     rw [e, hbd] at hk'
     cases hk'
     exact hk
-  have h1 : Acct (setLimit (addBytesReceived s size) s.cfg.maxLine) := h0.of_as (as_setLimit _ _)
-  generalize setLimit (addBytesReceived s size) s.cfg.maxLine = s1 at h1 ⊢
+  have h1 : Acct (armLimit (addBytesReceived s size)) := h0.of_as (as_armLimit _)
+  generalize armLimit (addBytesReceived s size) = s1 at h1 ⊢
   split
   · exact h1.of_as (as_reply _ _ _ _)
   · exact h1.of_as (as_bdatFinal _ _)
